@@ -161,6 +161,27 @@ func (g *Gen) pendingTimerTx() bool {
 	return false
 }
 
+// sharedTaskDue: a timer task of the producer's live state is due at height h and its program touches a key the pool
+// motifs work on. (In a round that walks the state — truncation, state behind the ledger — the pending transactions are
+// re-admitted by a goroutine alongside packBlock; with such a task the outcome depends on that race.)
+func (g *Gen) sharedTaskDue(h int) bool {
+	ts, err := g.e.tasksOf(g.e.w.P)
+	if err != nil {
+		return true
+	}
+	for _, t := range ts {
+		if t.Height != h {
+			continue
+		}
+		for _, k := range poolKeys {
+			if strings.Contains(t.Prog, " "+k) {
+				return true
+			}
+		}
+	}
+	return false
+}
+
 // mine emits one round of the real miner, preceded by the claims the model needs: the trunk height and the timer
 // tasks of the producer's live state.
 func (g *Gen) mine(trunc int) {
@@ -483,6 +504,11 @@ func (g *Gen) scenario(profile string) {
 		case 1:
 			g.motifChain()
 		}
+		if g.r.Chance(1, 3) && !(len(g.e.admitted) > 0 && g.sharedTaskDue(g.height()+2)) {
+			// a peer block reaches the producer's ledger only; the round has to walk the state to it first (the pending
+			// transactions are rolled back and re-admitted by that walk)
+			g.emit("fblock txs= lazy=1")
+		}
 		g.mine(0)
 		g.pruneAvail()
 	}
@@ -543,7 +569,8 @@ func (g *Gen) scenario(profile string) {
 			case 6:
 				n += g.motifStale()
 			case 7:
-				if tries == 0 || g.r.Chance(1, 3) {
+				// (the peer's block carries the timer transaction of its height: no task on pool keys may be due there)
+				if (tries == 0 || g.r.Chance(1, 3)) && !g.sharedTaskDue(g.height()+1) {
 					n += g.motifEvict()
 				}
 			case 8:
@@ -688,9 +715,13 @@ func (g *Gen) check() {
 	// the block: mostly the real miner's full round, sometimes after a truncation the consensus asks for (the setup
 	// block stays), sometimes packBlock alone (hook VerifPackBlock) with the ledger / state steps done by the harness
 	h := g.height()
+	trunc := 0
+	if h >= 2 {
+		trunc = 1 + g.r.Intn(h-1)
+	}
 	switch {
-	case h >= 2 && !g.pendingTimerTx() && g.r.Chance(1, 5):
-		g.mine(1 + g.r.Intn(h-1))
+	case trunc > 0 && !g.pendingTimerTx() && !(len(e.admitted) > 0 && g.sharedTaskDue(h-trunc+1)) && g.r.Chance(1, 5):
+		g.mine(trunc)
 	case !g.timers && g.r.Chance(1, 8):
 		g.emit("pack")
 	default:
